@@ -1,0 +1,55 @@
+//go:build verif
+
+package hdkeychain
+
+// Contracts for the deductive verifier in /verif (comment-only; build tag verif).
+//
+// Ownership discipline (C15): the byte buffers behind key, pubKey, chainCode and parentFP of an
+// extended key belong to that key alone; version may be shared but is never written.
+
+//@ func hdkeychain.zero
+//@   ensures forall j :: 0 <= j && j < len(b) ==> b[j] == 0
+//@   modifies b[*]
+//@   loop 1 invariant 0 <= i && i <= lenb && lenb == len(b) && forall j :: 0 <= j && j < i ==> b[j] == 0
+//@   loop 1 decreases lenb - i
+
+//@ func hdkeychain.(*ExtendedKey).Zero
+//@   ensures forall j :: 0 <= j && j < old(len(k.key)) ==> old(k.key)[j] == 0
+//@   ensures forall j :: 0 <= j && j < old(len(k.pubKey)) ==> old(k.pubKey)[j] == 0
+//@   ensures forall j :: 0 <= j && j < old(len(k.chainCode)) ==> old(k.chainCode)[j] == 0
+//@   ensures forall j :: 0 <= j && j < old(len(k.parentFP)) ==> old(k.parentFP)[j] == 0
+//@   ensures len(k.key) == 0 && len(k.version) == 0 && !k.isPrivate && k.depth == 0 && k.childNum == 0
+//@   modifies k.key, k.version, k.depth, k.childNum, k.isPrivate, k.key[*], k.pubKey[*], k.chainCode[*], k.parentFP[*]
+
+//@ func hdkeychain.NewExtendedKey
+//@   ensures result != nil && fresh(result) && result.isPrivate == isPrivate && result.depth == depth && result.childNum == childNum
+//@   ensures sameobj(result.key, key) && len(result.key) == len(key) && sameobj(result.chainCode, chainCode) && len(result.chainCode) == len(chainCode)
+//@   ensures sameobj(result.parentFP, parentFP) && len(result.parentFP) == len(parentFP) && sameobj(result.version, version) && len(result.version) == len(version) && len(result.pubKey) == 0
+//@   modifies nothing
+
+//@ func hdkeychain.(*ExtendedKey).pubKeyBytes
+//@   ensures !k.isPrivate ==> sameobj(result, k.key) && len(result) == len(k.key)
+//@   ensures k.isPrivate ==> sameobj(result, k.pubKey) && len(result) == len(k.pubKey) && (old(len(k.pubKey)) == 0 ==> fresh(result) && len(result) == 33)
+//@   ensures k.isPrivate && old(len(k.pubKey)) != 0 ==> sameobj(k.pubKey, old(k.pubKey))
+//@   modifies k.pubKey
+
+//@ func hdkeychain.(*ExtendedKey).IsPrivate
+//@   ensures result == k.isPrivate
+//@   modifies nothing
+
+//@ func hdkeychain.(*ExtendedKey).Depth
+//@   ensures result == k.depth
+//@   modifies nothing
+
+//@ func hdkeychain.(*ExtendedKey).SetNet
+//@   requires net != nil
+//@   ensures len(k.version) == 4
+//@   modifies k.version
+
+//@ func hdkeychain.(*ExtendedKey).Neuter
+//@   ensures !old(k.isPrivate) ==> err == nil && result0 == k
+//@   ensures old(k.isPrivate) && err == nil ==> result0 != nil && fresh(result0) && !result0.isPrivate && result0.depth == k.depth && result0.childNum == k.childNum
+//@   ensures old(k.isPrivate) && err == nil ==> fresh(result0.key) && fresh(result0.chainCode) && fresh(result0.parentFP)
+//@   ensures old(k.isPrivate) && err == nil ==> len(result0.chainCode) == len(k.chainCode) && forall j :: 0 <= j && j < len(k.chainCode) ==> result0.chainCode[j] == k.chainCode[j]
+//@   ensures old(k.isPrivate) && err == nil ==> len(result0.parentFP) == len(k.parentFP) && forall j :: 0 <= j && j < len(k.parentFP) ==> result0.parentFP[j] == k.parentFP[j]
+//@   modifies k.pubKey
